@@ -827,6 +827,14 @@ class ManifestRecursiveLoader:
                         else:
                             new_mpath = mpath[:-len(compr)-1]
 
+                        # never rename onto something that exists:
+                        # another Manifest of this directory or
+                        # a file that just happens to have the name
+                        if (new_mpath in self.loaded_manifests
+                                or os.path.lexists(os.path.join(
+                                    self.root_directory, new_mpath))):
+                            continue
+
                         # do the rename!
                         # (update the top-level name first, so that
                         # the renamed file is signed as appropriate)
